@@ -887,7 +887,7 @@ func initReflect(i *interpreter) {
 	}
 	i.rtypeMethods = methodSet{}
 	for _, name := range []string{"Bits", "Elem", "Field", "Kind", "NumField", "NumMethod", "String",
-		"Key", "Len", "Name", "PkgPath", "ConvertibleTo", "AssignableTo", "Comparable", "Implements"} {
+		"Key", "Len", "Name", "PkgPath", "ConvertibleTo", "AssignableTo", "Comparable", "Implements", "FieldByName"} {
 		i.rtypeMethods[name] = newMethod(i.reflectPackage, rtypeType, name)
 	}
 	i.errorMethods = methodSet{
@@ -992,4 +992,130 @@ func ext۰reflect۰Value۰Slice(fr *frame, args []value) value {
 		return makeReflectValueF(t, mkStr(b[lo:hi]), fl)
 	}
 	panic(valueErr(fr, "reflect.Value.Slice", args[0]))
+}
+
+func ext۰reflect۰Value۰FieldByName(fr *frame, args []value) value {
+	t := rV2T(args[0]).t
+	if t == nil {
+		panic(valueErr(fr, "reflect.Value.FieldByName", args[0]))
+	}
+	st, ok := t.Underlying().(*types.Struct)
+	if !ok {
+		panic(valueErr(fr, "reflect.Value.FieldByName", args[0]))
+	}
+	name := concStr(args[1], "FieldByName")
+	for k := 0; k < st.NumFields(); k++ {
+		if st.Field(k).Name() == name {
+			return ext۰reflect۰Value۰Field(fr, []value{args[0], k})
+		}
+	}
+	return makeReflectValue(nil, nil)
+}
+
+func ext۰reflect۰rtype۰FieldByName(fr *frame, args []value) value {
+	st, ok := args[0].(rtype).t.Underlying().(*types.Struct)
+	if !ok {
+		panic(reflectPanic(fr, "reflect: FieldByName of non-struct type "+args[0].(rtype).t.String()))
+	}
+	name := concStr(args[1], "FieldByName")
+	for k := 0; k < st.NumFields(); k++ {
+		if st.Field(k).Name() == name {
+			return tuple{ext۰reflect۰rtype۰Field(fr, []value{args[0], k}), true}
+		}
+	}
+	return tuple{zeroStructField(), false}
+}
+
+func zeroStructField() value {
+	return structure{"", "", iface{}, "", uintptr(0), []value(nil), false}
+}
+
+func ext۰reflect۰DeepEqual(fr *frame, args []value) value {
+	a, b := args[0].(iface), args[1].(iface)
+	if a.t == nil || b.t == nil {
+		return a.t == nil && b.t == nil
+	}
+	if !types.Identical(a.t, b.t) {
+		return false
+	}
+	return boolVal(deepEqT(a.v, b.v, 0))
+}
+
+// deepEqT: reflect.DeepEqual on values of one type (maps by key lookup, slices
+// element-wise, pointers by pointee).
+func deepEqT(x, y value, depth int) *smt.Term {
+	if depth > 32 {
+		panic(abortPath{"inconclusive", "DeepEqual recursion too deep"})
+	}
+	switch a := x.(type) {
+	case *value:
+		b := y.(*value)
+		if a == nil || b == nil {
+			return smt.BoolC(a == b)
+		}
+		if a == b {
+			return smt.True
+		}
+		return deepEqT(*a, *b, depth+1)
+	case []value:
+		b := y.([]value)
+		if (a == nil) != (b == nil) || len(a) != len(b) {
+			return smt.False
+		}
+		cs := []*smt.Term{}
+		for k := range a {
+			cs = append(cs, deepEqT(a[k], b[k], depth+1))
+		}
+		return smt.And(cs...)
+	case structure:
+		b := y.(structure)
+		cs := []*smt.Term{}
+		for k := range a {
+			cs = append(cs, deepEqT(a[k], b[k], depth+1))
+		}
+		return smt.And(cs...)
+	case array:
+		b := y.(array)
+		cs := []*smt.Term{}
+		for k := range a {
+			cs = append(cs, deepEqT(a[k], b[k], depth+1))
+		}
+		return smt.And(cs...)
+	case iface:
+		b := y.(iface)
+		if !sameType(a.t, b.t) {
+			return smt.False
+		}
+		if a.t == nil {
+			return smt.True
+		}
+		return deepEqT(a.v, b.v, depth+1)
+	case *smap:
+		b := y.(*smap)
+		if (a == nil) != (b == nil) || a.len() != b.len() {
+			return smt.False
+		}
+		if a == nil {
+			return smt.True
+		}
+		if a.nsym > 0 || b.nsym > 0 {
+			panic(abortPath{"inconclusive", "DeepEqual on maps with symbolic keys"})
+		}
+		cs := []*smt.Term{}
+		for k, key := range a.keys {
+			p, ok := b.idx[key]
+			if !ok {
+				return smt.False
+			}
+			cs = append(cs, deepEqT(a.vals[k], b.vals[p], depth+1))
+		}
+		return smt.And(cs...)
+	}
+	if isStr(x) && isStr(y) {
+		return strEqTerm(x, y)
+	}
+	if _, ok := scalarKind(x); ok {
+		return equalsT(nil, x, y)
+	}
+	return smt.BoolC(x == y)
 }
